@@ -176,7 +176,16 @@ func genC05(t *core.Tape, tier string) *Scenario {
 				payloads = nil
 			}
 		}
-		p.Canned = &simhttp.Canned{ReadRequest: true, OnRequest: func(reqHdr http.Header) *simhttp.Canned {
+		// (a successful answer: a client that learns of an error may stop sending)
+		answerFirst := p.Kind != KBidi && refErr == nil && t.Bool(1, 3, "answer.first")
+		if answerFirst {
+			// a full-duplex peer (a proxy in front of a gRPC backend that sends
+			// its headers at once): the answer is on its way before the request
+			// has been read, the response ends once the request has; the request
+			// must still arrive whole
+			sc.Notes["ref_server_answers_before_reading"]++
+		}
+		p.Canned = &simhttp.Canned{ReadRequest: !answerFirst, DrainBeforeEnd: answerFirst, OnRequest: func(reqHdr http.Header) *simhttp.Canned {
 			oo := o
 			oo.BareCT = false // the response echoes the request's content type
 			accept := reqHdr.Get("Grpc-Accept-Encoding")
